@@ -21,6 +21,9 @@ type Spec struct {
 	// FaultKinds this scenario can inject (names of Stats keys with prefix "fault:").
 	FaultKinds []string
 	Notes      []string
+	// Warm lists scenario constructors that the per-process warm-up must run once each
+	// (rarely chosen scenarios whose first execution triggers one-time initialisation).
+	Warm []func() dsim.World
 }
 
 var registry = map[string]*Spec{}
